@@ -102,39 +102,80 @@ def const_agreement(ctx):
                    {"const": name, "spec": sv, "c": cv, "go": gv})
     # Makefile default of MAX_MATCH_SET_LEN (passed to clang and, through ldflags, to consts.MaxMatchSetLen_)
     # = the defaults compiled into tproxy.c and ebpf.go (those two are compared through the const ops)
-    mk = re.search(r"^MAX_MATCH_SET_LEN\s*\?=\s*(\d+)", open(os.path.join(REPO, "Makefile")).read(), re.M)
-    gosrc = open(os.path.join(REPO, "common/consts/ebpf.go")).read()
-    gm = re.search(r"MaxMatchSetLen\s*=\s*([0-9* ]+)", gosrc)
-    if mk and gm:
-        gv = eval(gm.group(1), {"__builtins__": {}})
-        if int(mk.group(1)) != gv:
-            ctx.report(f"Makefile default MAX_MATCH_SET_LEN={mk.group(1)} differs from consts.MaxMatchSetLen={gv}",
-                       {"makefile": mk.group(1), "go": gv})
-        ctx.cov["makefile_max_match_set_len"] = int(mk.group(1))
+    try:
+        mk = re.search(r"^MAX_MATCH_SET_LEN\s*\?=\s*(\d+)", open(os.path.join(REPO, "Makefile")).read(), re.M)
+        gosrc = open(os.path.join(REPO, "common/consts/ebpf.go")).read()
+        gm = re.search(r"\bMaxMatchSetLen\s*=\s*([^\n/]+)", gosrc)
+        expr = gm.group(1).strip() if gm else ""
+        if mk and gm and re.fullmatch(r"[0-9xXa-fA-F\s*+<()\-]+", expr):
+            gv = eval(expr, {"__builtins__": {}})
+            if int(mk.group(1)) != gv:
+                ctx.report(f"Makefile default MAX_MATCH_SET_LEN={mk.group(1)} differs from consts.MaxMatchSetLen={gv} ({expr})",
+                           {"makefile": mk.group(1), "go": gv})
+            ctx.cov["makefile_max_match_set_len"] = int(mk.group(1))
+        else:
+            ctx.cov["makefile_max_match_set_len"] = "not comparable (default not found as a constant expression)"
+    except (OSError, SyntaxError, ValueError, TypeError) as e:
+        ctx.cov["makefile_max_match_set_len"] = f"not comparable ({e})"
     ctx.cov["generated_constants_compared"] = len(rows)
     return len(rows)
 
 
 def reload_callsite_check(ctx):
-    """buildRoutingKernspace, InheritLpmIndices/ReplaceLpmIndices, clearReloadDomainRoutingMap and the
-    whole RebuildReloadDatapath sequence are EXECUTED on real kernel maps by the harness.  Two call sites of
-    clearReloadDomainRoutingMap cannot be executed (CommitPreparedDatapath and NewControlPlane need a
-    network namespace): only the presence of the call in those two functions is checked textually.
-    A function that was renamed or moved is skipped (recorded), not alarmed on."""
-    src = open(os.path.join(REPO, "control/control_plane.go")).read()
+    """buildRoutingKernspace, Inherit/ReplaceLpmIndices, clearReloadDomainRoutingMap, replayDnsReloadCache and the
+    whole RebuildReloadDatapath are EXECUTED on real kernel maps by the harness.  CommitPreparedDatapath and the
+    constructor (newControlPlaneWithContextOptions) cannot run (bindDaens needs a network namespace): for every
+    function of control_plane.go that itself installs a generation (calls BuildKernspace), the text of the function — with the bodies of the
+    package's own functions/methods it calls expanded two levels deep — must contain clearReloadDomainRoutingMap,
+    and before replayDnsReloadCache when both occur.  Functions that were renamed are found by what they call,
+    not by name.  Nothing found = recorded, not alarmed on."""
     res = {}
-    for fn in ("CommitPreparedDatapath", "NewControlPlaneWithOptions", "NewControlPlane", "newControlPlane"):
-        m = re.search(r"\nfunc (?:\([^)]*\) )?%s\(.*?\n}\n" % fn, src, re.S)
-        if not m:
+    try:
+        srcs = {}
+        for fn in sorted(os.listdir(os.path.join(REPO, "control"))):
+            if fn.endswith(".go") and not fn.endswith("_test.go"):
+                srcs[fn] = open(os.path.join(REPO, "control", fn)).read()
+    except OSError as e:
+        ctx.cov["reload_callsites_checked"] = f"unreadable: {e}"
+        return
+    bodies = {}
+    for text in srcs.values():
+        for m in re.finditer(r"\nfunc (?:\([^)]*\) )?(\w+)(?:\[[^\]]*\])?\((.*?)\n}\n", text, re.S):
+            bodies.setdefault(m.group(1), m.group(0))
+
+    def expand(body, depth, seen):
+        if depth == 0:
+            return body
+        out, pos = [], 0
+        for m in re.finditer(r"(?:\b\w+\.)*(\w+)\(", body):
+            name = m.group(1)
+            if name in bodies and name not in seen and name not in ("clearReloadDomainRoutingMap", "replayDnsReloadCache", "BuildKernspace"):
+                out.append(body[pos:m.end()])
+                out.append(" /*inlined " + name + "*/ " + expand(bodies[name].split("{", 1)[-1], depth - 1, seen | {name}))
+                pos = m.end()
+        out.append(body[pos:])
+        return "".join(out)
+
+    main = srcs.get("control_plane.go", "")
+    for m in re.finditer(r"\nfunc (?:\([^)]*\) )?(\w+)(?:\[[^\]]*\])?\((.*?)\n}\n", main, re.S):
+        name, body = m.group(1), m.group(0)
+        if name in ("clearReloadDomainRoutingMap", "replayDnsReloadCache"):
             continue
-        body = m.group(0)
-        if "BuildKernspace(" not in body and "replayDnsReloadCache()" not in body:
-            continue
-        res[fn] = "clearReloadDomainRoutingMap(" in body
-    for fn, ok in res.items():
-        if not ok:
-            ctx.report(f"{fn} installs a new routing generation but no longer clears domain_routing_map (clearReloadDomainRoutingMap): "
-                       "addresses keep bitmaps whose bit positions belong to the previous generation's match sets",
+        if ".BuildKernspace(" not in re.sub(r"//[^\n]*", "", body):
+            continue  # candidates: the functions that themselves install a generation
+        full = expand(body, 2, {name})
+        # strip comments
+        code = re.sub(r"//[^\n]*", "", full)
+        ic, ir = code.find("clearReloadDomainRoutingMap("), code.find("replayDnsReloadCache(")
+        res[name] = "ok" if ic >= 0 and (ir < 0 or ic < ir) else ("clear-after-replay" if ic >= 0 else "no-clear")
+    for fn, st in res.items():
+        if st == "no-clear":
+            ctx.report(f"{fn} installs a new routing generation on shared BPF maps but no longer clears domain_routing_map "
+                       "(clearReloadDomainRoutingMap, also not in the functions it calls): addresses keep bitmaps whose bit positions "
+                       "belong to the previous generation's match sets", {"file": "control/control_plane.go", "function": fn}, no_input=True)
+        elif st == "clear-after-replay":
+            ctx.report(f"{fn} clears domain_routing_map AFTER replaying the DNS cache into it: the table is empty while cache and tracker "
+                       "believe every name is published (the kernel routes every cached address without its domain)",
                        {"file": "control/control_plane.go", "function": fn}, no_input=True)
     ctx.cov["reload_callsites_checked"] = res
 
@@ -143,16 +184,18 @@ def ring_invariants(ctx, ops, name):
     """On the slots found in the REAL lpm_array_map after each reload: every trie of a generation sits in
     a slot of its own inside the map; consecutive generations whose sizes add up to at most
     MAX_MATCH_SET_LEN use disjoint slots (the hot-reload overlap window)."""
-    gens, cur = [], None
+    gens, slots, cur = [], [], None
     for i, op in enumerate(ops):
         t = op.split(" ", 3)
-        if t[0] == "reserve":
-            cur = {"line": i + 1, "count": int(t[1]), "start": int(t[2]), "slots": [], "done": False}
-            gens.append(cur)
-        elif t[0] == "lpm" and cur is not None and not cur["done"]:
-            cur["slots"].append(int(t[1]))
-        elif t[0] == "instcheck" and cur is not None:
-            cur["done"] = True
+        if t[0] == "lpm":
+            slots.append(int(t[1]))
+        elif t[0] == "reserve":
+            cur = {"line": i + 1, "count": int(t[1]), "start": int(t[2]), "done": False}
+        elif t[0] == "instcheck":
+            if cur is not None:
+                cur["slots"], cur["done"] = slots, True
+                gens.append(cur)
+            slots, cur = [], None
     gens = [g for g in gens if g["done"]]
     n_pairs = n_overlap = 0
     for g in gens:
@@ -252,10 +295,15 @@ def run(ctx):
     # the three build steps are independent: prove+audit (lake), native route() (clang), Go harness (go test -c)
     import threading
 
+    thread_errors = []
+
     def prove():
-        ctx.prove(["DaeVerif.C02.Props", "DaeVerif.Compose.KernelDomain"], ["DaeVerif.C02.Props", "DaeVerif.Compose"],
-                  ["DaeVerif/C02/*.lean", "DaeVerif/Compose/*.lean"], extra_targets=["c02drv"])
-        ctx.required_theorems(REQUIRED)
+        try:
+            ctx.prove(["DaeVerif.C02.Props", "DaeVerif.Compose.KernelDomain"], ["DaeVerif.C02.Props", "DaeVerif.Compose"],
+                      ["DaeVerif/C02/*.lean", "DaeVerif/Compose/*.lean"], extra_targets=["c02drv"])
+            ctx.required_theorems(REQUIRED)
+        except BaseException as e:  # a timeout / crash of lake must never look like "nothing to prove"
+            thread_errors.append(f"prove step did not complete: {type(e).__name__}: {e}")
 
     # native build of /repo's CURRENT tproxy.c (unmodified; #included by the driver)
     cdir = os.path.join(VERIF, "harness", "c")
@@ -269,9 +317,12 @@ def run(ctx):
         cmd = ["clang", "-O1", "-g", "-fsanitize=address,undefined", "-fno-sanitize-recover=undefined", "-Wno-unused-function",
                "-I" + cdir, "-I" + os.path.join(REPO, "control", "kern"),
                os.path.join(cdir, "c02_driver.c"), os.path.join(cdir, "bpf_shim.c"), "-o", cdrv]
-        rc, out, dt = sh(cmd, timeout=900)
-        cbuild.update(rc=rc, out=out)
-        ctx.log.write(f"$ {' '.join(cmd)} [{dt:.1f}s rc={rc}]\n{out}\n")
+        try:
+            rc, out, dt = sh(cmd, timeout=900)
+            cbuild.update(rc=rc, out=out)
+            ctx.log.write(f"$ {' '.join(cmd)} [{dt:.1f}s rc={rc}]\n{out}\n")
+        except BaseException as e:
+            cbuild.update(rc=-1, out=f"{type(e).__name__}: {e}")
 
     th = [threading.Thread(target=prove), threading.Thread(target=build_c)]
     for t in th:
@@ -290,6 +341,9 @@ def run(ctx):
         ctx.cov["production_optimizer_chain"] = chain_mode
     for t in th:
         t.join()
+    if thread_errors or not ctx.obligations:
+        ctx.say("CHECK-ERROR " + "; ".join(thread_errors or ["the prove step produced no obligations"]))
+        return 2
     if cbuild.get("rc") != 0 or not os.path.exists(cdrv):
         ctx.say("HARNESS-BUILD-FAILED native tproxy.c:\n" + cbuild.get("out", "")[-3000:])
         return 2
@@ -298,6 +352,11 @@ def run(ctx):
     rc, out = ctx.run_harness(binp, "TestVerifC02")
     if rc != 0 or not os.path.exists(os.path.join(ctx.out, "c02.ops")):
         ctx.say("HARNESS-FAILED", out[-3000:])
+        return 2
+    envfail = read_lines(os.path.join(ctx.out, "c02.envfail")) if os.path.exists(os.path.join(ctx.out, "c02.envfail")) else []
+    if envfail:
+        ctx.say("HARNESS-ENV-FAILED property=C02: the sandbox refused a bpf(2) operation the harness needs (real kernel maps: CAP_BPF + "
+                "CAP_SYS_ADMIN for BPF_MAP_GET_FD_BY_ID, batch ops): " + " | ".join(envfail[:3]))
         return 2
     replay_cmd = "VERIF_SEED=%d ./check C02 %s" % (ctx.seed, ctx.tier)
 
@@ -379,9 +438,9 @@ def run(ctx):
     need = {"big.overlap_generation_installed": 3, "ring.slot_reused_across_generations": 1,
             "big.exactly_max_installed": 1, "big.over_limit_rejected": 1}
     missing = {k: cnt.get(k, 0) for k, v in need.items() if cnt.get(k, 0) < v}
+    not_exercised = []
     if missing:
-        ctx.report("boundary stream did not exercise what it is for (overlapping generations of 600 tries, a program of exactly "
-                   f"{1024} match sets accepted, {1025} rejected): {missing}; notes: {bnote}", {"missing": missing, "notes": bnote}, no_input=True)
+        not_exercised.append(f"boundary stream (overlapping generations of 600 tries, exactly 1024 match sets accepted, 1025 rejected): {missing}; notes: {bnote}")
     ctx.cov["boundary_stream"] = {"notes": bnote, "packets": sum(1 for o in bops if o.startswith("pkt ")),
                                   "overlapping_pairs": ctx.cov.get("ring", {}).get("c02big", {}).get("overlapping_pairs")}
 
@@ -397,13 +456,16 @@ def run(ctx):
     if emerged:
         em = ctx.diff_streams(os.path.join(ctx.out, "c02err.ops"), os.path.join(ctx.out, "c02err.merged"),
                               os.path.join(ctx.out, "c02err.model"), "c02err", canon=canon_line)
+        # states unreachable under `Installed` (hand-written maps): how the kernel fails there is visible to no caller,
+        # a difference from the model is a diagnostic, not a verdict
         for ln, op, im, mo in em[:5]:
-            ctx.report(f"kernel error path: native route() differs from the model at line {ln}: C `{im[:100]}` model `{mo[:100]}`",
-                       {"stream": "c02err", "line": ln, "op": op[:2000], "impl": im, "model": mo, "ops_before": eops[max(0, ln - 4):ln - 1]})
+            ctx.say(f"NOTE property=C02 [c02err] native route() differs from the model on a hand-written (not installable) map state at line {ln}: "
+                    f"C `{im[:60]}` model `{mo[:60]}` (ops before: {eops[max(0, ln - 3):ln - 1]})"[:600])
+        ctx.cov["kernel_error_stream_model_differences"] = len(em)
         ek = [m for o, m in zip(eops, emerged) if o.startswith("kpkt ")]
         ctx.cov["kernel_error_stream"] = {"packets": len(ek), "errors": sum(1 for m in ek if m == "k=err"), "answers": ek}
         if len(ek) < 10 or not any(m == "k=err" for m in ek) or not any(m != "k=err" for m in ek):
-            ctx.report("kernel error stream is degenerate: " + str(ek), {"answers": ek}, no_input=True)
+            not_exercised.append("kernel error stream is degenerate: " + str(ek))
 
     # ---- regression replay of former finding #6 (pname('') with an unknown process on WAN; repaired by
     # C02.fix1: the kernel now tests pname[0] != 0 like userspace). A revert must be a violation.
@@ -423,7 +485,7 @@ def run(ctx):
         f6["packets"] = [m for o, m in zip(fops, fmerged) if o.startswith("pkt ")]
         f6["kernel_and_userspace_agree"] = not fneq
     if f6["parsed"] != ["ok"] or len(f6.get("packets", [])) != 3:
-        ctx.report("empty-process-name replay did not run (program rejected or packets missing): " + str(f6), f6, no_input=True)
+        not_exercised.append("empty-process-name replay did not run (pname('') rejected by the configuration layer, or packets missing): " + str(f6))
     ctx.cov["empty_pname_replay"] = f6
 
     # generator reach: below these floors the run did not test what it claims (exit 2, not OK)
@@ -431,11 +493,14 @@ def run(ctx):
     floors = {"prog.installed": 1500 if thorough else 250, "reload.commit+inherit": 100, "reload.rebuild": 100, "ring.wraps": 2,
               "pkt.dport53": 5000, "pkt.wan_pname_unknown": 2000, "pkt.domain_bitmap_nonzero": 2000, "pkt.zero_mac": 2000,
               "set.tail_must_rules": 50, "set.not": 300, "result.must": 1000, "result.marked": 1000,
-              "dom.generations": 3, "dom.self_rebuild": 1, "dom.entries_verified": 15, "pkt.domain_table_written_by_control_plane": 30,
+              "dom.generations": 4, "dom.generation_with_high_index_domain_sets": 1, "dom.self_rebuild": 1, "dom.entries_verified": 15, "pkt.domain_table_written_by_control_plane": 30,
               "max_matchsets_in_a_program": 300, "max_lpm_tries_in_a_program": 50}
     floors.update({f"set.type{t}": 150 for t in range(11)})
     low = {k: cnt.get(k, 0) for k, v in floors.items() if cnt.get(k, 0) < v}
     ctx.cov["floors"] = floors
+    if not_exercised and not ctx.violations:
+        ctx.say("GENERATOR-BELOW-FLOOR property=C02 a directed stream did not exercise its case — not OK: " + " || ".join(not_exercised)[:1500])
+        return 2
     if low and not ctx.violations:
         ctx.say(f"GENERATOR-BELOW-FLOOR property=C02 {low} (floors {({k: floors[k] for k in low})}) — not OK: the run did not test what it claims")
         return 2
